@@ -13,6 +13,7 @@ import (
 	"path/filepath"
 	"regexp"
 	"strings"
+	"time"
 
 	"github.com/tsawler/tabula"
 	"github.com/tsawler/tabula/contentstream"
@@ -105,9 +106,36 @@ type siteInfo struct {
 // nstm / stmMembers: object streams of the last rendering and their largest member count
 var nstm, stmMembers int
 
+// xrefDictNums / stmDictNums: numeric sites in the dictionary of each cross-reference
+// stream / object stream of the last rendering (by ordinal; 0 for a classic table)
+var xrefDictNums, stmDictNums map[int]int
+
+// applyDict applies the dictionary-text faults of one kind family ("xref-" or "objstm-")
+// aimed at ordinal ord: <family>number (Site-th number -> Value), <family>delim (Site-th
+// occurrence of Value removed), <family>filter (re-announced filter, as kind "filter").
+func applyDict(dict, family string, ord int, faults []fault) string {
+	for _, f := range faults {
+		if f.Ordinal != ord || !strings.HasPrefix(f.Kind, family) {
+			continue
+		}
+		switch strings.TrimPrefix(f.Kind, family) {
+		case "number":
+			dict = applyText(dict, fault{Kind: "number", Site: f.Site, Value: f.Value})
+		case "delim":
+			dict = applyText(dict, fault{Kind: "delim", Site: f.Site, Value: f.Value})
+		case "filter":
+			d := strings.ReplaceAll(dict, "/Filter", "/XFilter")
+			d = strings.ReplaceAll(d, "/DecodeParms", "/XDecodeParms")
+			dict = f.Value + " " + d
+		}
+	}
+	return dict
+}
+
 func render(doc writers.LDoc, lay writers.Layout, faults []fault) ([]byte, []siteInfo, int) {
 	var info []siteInfo
 	nstm, stmMembers = 0, 0
+	xrefDictNums, stmDictNums = map[int]int{}, map[int]int{}
 	lay.ObjHook = func(o *writers.RawObj) {
 		text := o.Body
 		if o.Stream {
@@ -167,6 +195,20 @@ func render(doc writers.LDoc, lay writers.Layout, faults []fault) ([]byte, []sit
 						o.Body = text
 					}
 				}
+			case "filter-fill":
+				// as "filter", and the data becomes a run of one byte value:
+				// Value = "<byte, hex>|<length>|<filter text>"
+				parts := strings.SplitN(f.Value, "|", 3)
+				if o.Stream && len(parts) == 3 {
+					var bv, n int
+					fmt.Sscanf(parts[0], "%x", &bv)
+					fmt.Sscan(parts[1], &n)
+					d := strings.ReplaceAll(o.Dict, "/Filter", "/XFilter")
+					d = strings.ReplaceAll(d, "/DecodeParms", "/XDecodeParms")
+					o.Dict = parts[2] + " " + d
+					o.Data = bytes.Repeat([]byte{byte(bv)}, n)
+					o.LengthOverride = fmt.Sprint(n) // direct and true, whatever the layout's length mode
+				}
 			case "filter":
 				// the stream announces another filter (and decode parameters): Value is
 				// the new "/Filter ... /DecodeParms ..." text; the old keys are renamed
@@ -183,7 +225,15 @@ func render(doc writers.LDoc, lay writers.Layout, faults []fault) ([]byte, []sit
 		if len(st.Nums) > stmMembers {
 			stmMembers = len(st.Nums)
 		}
+		stOrd := st.Ordinal
+		st.DictRewrite = func(dict string) string {
+			stmDictNums[stOrd] = len(numSites(dict))
+			return applyDict(dict, "objstm-", stOrd, faults)
+		}
 		for _, f := range faults {
+			if f.Kind == "objstm-length" && f.Ordinal == st.Ordinal {
+				st.LengthText = f.Value
+			}
 			if f.Kind != "objstm" || f.Ordinal != st.Ordinal {
 				continue
 			}
@@ -216,11 +266,18 @@ func render(doc writers.LDoc, lay writers.Layout, faults []fault) ([]byte, []sit
 	nx := 0
 	lay.XrefHook = func(x *writers.RawXref) {
 		nx++
+		xOrd := x.Ordinal
+		x.DictRewrite = func(dict string) string { // called for cross-reference streams only
+			xrefDictNums[xOrd] = len(numSites(dict))
+			return applyDict(dict, "xref-", xOrd, faults)
+		}
 		for _, f := range faults {
 			if f.Ordinal != x.Ordinal {
 				continue
 			}
 			switch f.Kind {
+			case "xref-length":
+				x.LengthOverride = f.Value
 			case "xref-entry":
 				// retarget the Site-th entry: offset := Value
 				i := 0
@@ -304,6 +361,10 @@ func sortedKeys(m map[int]writers.XEntry) []int {
 	return ks
 }
 
+// exerciseOnly, when non-nil, restricts exercise to the named calls (used by the cases
+// whose inputs are megabytes of nesting, see exerciseLight).
+var exerciseOnly map[string]bool
+
 // entry points exercised on every damaged file
 func exercise(c *hx.Ctx, k kase, path string, data []byte) {
 	c.Current(k)
@@ -325,6 +386,9 @@ func exercise(c *hx.Ctx, k kase, path string, data []byte) {
 		{"Analyze", func() { tabula.Open(path).Analyze() }},
 	}
 	for _, call := range calls {
+		if exerciseOnly != nil && !exerciseOnly[call.name] {
+			continue
+		}
 		c.Guard("C02/"+k.Format+"-"+call.name, k, 10, call.f)
 		c.Rep.OracleChecks++
 	}
@@ -354,6 +418,8 @@ func docFor(seed uint64) (writers.LDoc, writers.Layout) {
 	return genDoc(r), genLayout(r)
 }
 
+var pdfRuns int
+
 func runPDF(c *hx.Ctx, k kase, tag string) {
 	doc, _ := docFor(k.Seed)
 	data, _, _ := render(doc, k.Layout, k.Faults)
@@ -361,6 +427,9 @@ func runPDF(c *hx.Ctx, k kase, tag string) {
 	os.WriteFile(path, data, 0o644)
 	defer os.Remove(path)
 	exercise(c, k, path, data)
+	if pdfRuns++; pdfRuns%8 == 0 && exerciseOnly == nil {
+		deepCalls(c, k, path) // every eighth damaged file also goes through the graph-walking entry points
+	}
 	kinds := ""
 	for _, f := range k.Faults {
 		kinds += f.Kind + "+"
@@ -456,6 +525,121 @@ func objstmFaults(c *hx.Ctx, d int, seed uint64) {
 	}
 }
 
+// lengthValues: what a /Length may be replaced by (own is the number of the stream itself,
+// 0 if unknown): the catalogue's numbers, sizes between "a lot" and "cannot exist", other types.
+func lengthValues(own int) []string {
+	vs := append([]string(nil), numValues...)
+	vs = append(vs, "4294967296", "1099511627776", "-9223372036854775808", "9999 0 R", "(x)", "-5", "1.5")
+	if own > 0 {
+		vs = append(vs, fmt.Sprintf("%d 0 R", own))
+	}
+	return vs
+}
+
+// xrefDictCatalogue: the faults of the dictionary of cross-reference section x when it is
+// a cross-reference STREAM (nums > 0): its /Length, every number in it (/Size, /W, /Index,
+// /Prev, /Root, /Columns, /Predictor), its delimiters, and every filterStep-th re-announced filter.
+func xrefDictCatalogue(x, nums, filterStep int) []fault {
+	var out []fault
+	if nums == 0 {
+		return nil
+	}
+	for _, v := range lengthValues(0) {
+		out = append(out, fault{Kind: "xref-length", Ordinal: x, Value: v})
+	}
+	for s := 0; s < nums; s++ {
+		for _, v := range numValues {
+			out = append(out, fault{Kind: "xref-number", Ordinal: x, Site: s, Value: v})
+		}
+	}
+	for _, d := range []string{"[", "]", "<<", ">>"} {
+		for s := 0; s < 2; s++ {
+			out = append(out, fault{Kind: "xref-delim", Ordinal: x, Site: s, Value: d})
+		}
+	}
+	for i, v := range filterValues() {
+		if (i+x)%filterStep == 0 {
+			out = append(out, fault{Kind: "xref-filter", Ordinal: x, Value: v})
+		}
+	}
+	return out
+}
+
+// xrefDictFaults: one document laid out with cross-reference streams whatever its drawn
+// layout says, opened from disk, with the whole xrefDictCatalogue of every section, and
+// the same for the dictionary and /Length of every object stream.
+func xrefDictFaults(c *hx.Ctx, d int, seed uint64) {
+	doc, lay := docFor(seed)
+	lay.XrefStream = true
+	lay.ObjStm = d%2 == 1
+	_, _, nx := render(doc, lay, nil)
+	xn, sn := xrefDictNums, stmDictNums
+	step := 1
+	if !c.Thorough() {
+		step = 9
+	}
+	var fs []fault
+	for x := 0; x < nx; x++ {
+		fs = append(fs, xrefDictCatalogue(x, xn[x], step)...)
+	}
+	for o := 0; o < len(sn); o++ {
+		for _, v := range lengthValues(0) {
+			fs = append(fs, fault{Kind: "objstm-length", Ordinal: o, Value: v})
+		}
+		for s := 0; s < sn[o]; s++ {
+			for _, v := range numValues {
+				fs = append(fs, fault{Kind: "objstm-number", Ordinal: o, Site: s, Value: v})
+			}
+		}
+		for i, v := range filterValues() {
+			if (i+o)%(step*3) == 0 {
+				fs = append(fs, fault{Kind: "objstm-filter", Ordinal: o, Value: v})
+			}
+		}
+	}
+	for _, f := range fs {
+		runPDF(c, kase{Format: "pdf", Doc: d, Seed: seed, Faults: []fault{f}, Layout: lay}, "p")
+	}
+}
+
+// filterFillFaults: the first stream of one document (the first two in the thorough
+// tier) under every filterValues entry, its data replaced by 2 KiB of 0xFF, 0x00 and
+// 0xAA: for a decoder in which single bits are codes (CCITT: "a row like the one above",
+// run lengths; LZW; RunLength) these are the inputs that ask for the most output per
+// byte. quick: a seed-dependent eighth of the entries; of the entries with the widest
+// rows (each costs a decode up to the decoder's output limit) only Group 4 on 0xFF, and
+// only through Text().
+func filterFillFaults(c *hx.Ctx, d int, seed uint64) {
+	const widest = "/Filter /CCITTFaxDecode /DecodeParms << /K -1 /Columns 1048576 /Rows 0 >>"
+	doc, lay := docFor(seed)
+	_, info, _ := render(doc, lay, nil)
+	streams := 0
+	for _, si := range info {
+		if !si.stream {
+			continue
+		}
+		if streams++; streams > c.N(1, 2) {
+			break
+		}
+		for i, v := range filterValues() {
+			wide := strings.Contains(v, "1048576")
+			if !c.Thorough() && ((!wide && (i+int(seed))%8 != 0) || (wide && v != widest)) {
+				continue
+			}
+			for _, fill := range []string{"ff|2048", "00|2048", "aa|2048"} {
+				if wide {
+					if !c.Thorough() && fill != "ff|2048" {
+						continue
+					}
+					exerciseOnly = map[string]bool{"Text": true}
+				}
+				runPDF(c, kase{Format: "pdf", Doc: d, Seed: seed, Faults: []fault{{Kind: "filter-fill", Ordinal: si.ordinal, Value: fill + "|" + v}}, Layout: lay}, "p")
+				exerciseOnly = nil
+			}
+		}
+	}
+}
+
 // filterFaults runs every filterValues entry on every stream of one document.
 func filterFaults(c *hx.Ctx, d int, seed uint64) {
 	doc, lay := docFor(seed)
@@ -473,6 +657,7 @@ func filterFaults(c *hx.Ctx, d int, seed uint64) {
 // pdfCatalogue enumerates all single faults of one document.
 func pdfCatalogue(doc writers.LDoc, lay writers.Layout) []fault {
 	data, info, nx := render(doc, lay, nil)
+	xnums := xrefDictNums
 	var out []fault
 	for _, si := range info {
 		for s := 0; s < si.nums; s++ {
@@ -527,6 +712,7 @@ func pdfCatalogue(doc writers.LDoc, lay writers.Layout) []fault {
 		for _, v := range []string{"/Root 9999 0 R", "/Root 0 0 R", "", "/Root (x)", "/Root << >>"} {
 			out = append(out, fault{Kind: "xref-trailer", Ordinal: x, Value: v})
 		}
+		out = append(out, xrefDictCatalogue(x, xnums[x], 7)...)
 	}
 	// truncation at token boundaries (white space positions), evenly sampled
 	var ws []int
@@ -774,51 +960,108 @@ func cmapExtremes(c *hx.Ctx, seed uint64, n int) {
 	}
 }
 
+// section runs one part of the catalogue; with C02_TIMING set its wall time goes to stderr
+// (C02_ONLY=a,b restricts a manual run to the named sections; check never sets it).
+func section(name string, f func()) {
+	if only := os.Getenv("C02_ONLY"); only != "" && !strings.Contains(","+only+",", ","+name+",") {
+		return // debugging aid: run the named sections only
+	}
+	t0 := time.Now()
+	f()
+	if os.Getenv("C02_TIMING") != "" {
+		fmt.Fprintf(os.Stderr, "c02 section %-14s %6.1fs\n", name, time.Since(t0).Seconds())
+	}
+}
+
 func Run(c *hx.Ctx) {
-	c.Rep.Rule = "valid documents of all seven formats from the harness writers (PDF in random physical layouts, DOCX, ODT, XLSX, PPTX, EPUB, HTML) x every single fault of the catalogue at every site (numbers -> 0,-1,2^31,2^63-1; references -> self/root/missing; delimiters removed/added; objects/members dropped/duplicated; stream data flipped/truncated; objects and stream data replaced by 20 thousand / 6 million nested opening delimiters (balanced and not); /N, /First and every header pair of every object stream at the edges of their types and out of order; Form XObjects drawing Form XObjects (self, mutual, chains with fan-out k^d); every stream re-announced under every filter name/abbreviation/chain with edge decode parameters (full sweep on the first documents); /Length, xref entries, /W, /Prev, /Size, trailer; truncation at token boundaries; targeted field rewrites) ; structurally rich DOCX/ODT/PPTX (merged cells, nested lists, column grids) with every numeric attribute and element text -> 0,-1,2^31-1,2^31,2^32,999999999,2^63-1,-2^63 + sampled double faults + byte mutation + hostile token soup into the raw parsers; every case runs 5-6 public entry points under a 10 s deadline and a 3 GiB heap limit; every case is non-trivial"
-	xrefStreamOps(c)
-	gridOps(c)
-	ptreeOps(c)
+	c.Rep.Rule = "valid documents of all seven formats from the harness writers (PDF in random physical layouts, DOCX, ODT, XLSX, PPTX, EPUB, HTML) x every single fault of the catalogue at every site (numbers -> 0,-1,2^31,2^63-1; references -> self/root/missing; delimiters removed/added; objects/members dropped/duplicated; stream data flipped/truncated; objects and stream data replaced by 20 thousand / 6 million nested opening delimiters (balanced and not); /N, /First and every header pair of every object stream at the edges of their types and out of order; /Length, every number, the delimiters and the filter of every cross-reference stream and object stream dictionary, files opened from disk; Form XObjects drawing Form XObjects (self, mutual, chains with fan-out k^d); every stream re-announced under every filter name/abbreviation/chain with edge decode parameters, over its own data and over runs of 0xFF/0x00/0xAA; /Length, xref entries, /W, /Prev, /Size, trailer; truncation at token boundaries; targeted field rewrites); authored PDFs: one font of each kind with every number of every font object/CMap/content stream and every 16-bit field of the embedded TrueType program at type edges, cmap segment fan-out; reference graphs (chains of indirect /Length, list-shaped and inline page trees, colour-space cycles, shared DAGs, images announcing w x h over 2 x 2 data, JPEG headers) also through Reader.ResolveDeep, resolver.ResolveDeep, ExtractPageImages+ToPNG; page geometry (every number of the page dictionary and of an unfiltered content stream at type edges and magnitudes in between, wide pages x huge fonts x many lines, repeated /Contents) through every option (PreserveLayout, ByColumn, JoinParagraphs, header/footer exclusion) and analysis entry point; structurally rich DOCX/ODT/PPTX with every numeric attribute and element text -> 0,-1,2^31-1,2^31,2^32,999999999,2^63-1,-2^63; the numeric fields the specifications define but the writers never emit, injected with the same values (DOCX, ODT, PPTX, XLSX, HTML); every identifier reference inside the XML members (style inheritance and links, numbering, relationship ids, spine ids) retargeted to its own definition, to every definition that reaches it, to nothing; authored style graphs (self, cycles, tail into a cycle, long chains, stars) with every style used; every element name and every container the specifications allow inside itself nested 130 thousand deep under a 32 MiB stack limit; products of bounded numbers (column letters, n merged regions x the grid, k sheets x the grid, k spanning cells x r rows, spine repetitions, inline nesting in HTML/EPUB); + sampled double faults + byte mutation + hostile token soup into the raw parsers (and Go native fuzz targets under harness/c02/fuzz, not part of the check); every case runs 1-8 public entry points under a 10 s deadline and a 3 GiB heap limit; every case is non-trivial"
+	section("ops", func() {
+		xrefStreamOps(c)
+		gridOps(c)
+		ptreeOps(c)
+	})
 	ndocs := c.N(4, 30)
 	perDoc := c.N(450, 100000)
-	for d := 0; d < ndocs; d++ {
-		seed := c.Seed*1000 + uint64(d)
-		doc, lay := docFor(seed)
-		cat := pdfCatalogue(doc, lay)
-		c.Count(fmt.Sprintf("pdf-catalogue-size=%d", len(cat)/100*100))
-		step := 1
-		if len(cat) > perDoc {
-			step = len(cat)/perDoc + 1
+	section("pdf-catalogue", func() {
+		for d := 0; d < ndocs; d++ {
+			seed := c.Seed*1000 + uint64(d)
+			doc, lay := docFor(seed)
+			cat := pdfCatalogue(doc, lay)
+			c.Count(fmt.Sprintf("pdf-catalogue-size=%d", len(cat)/100*100))
+			step := 1
+			if len(cat) > perDoc {
+				step = len(cat)/perDoc + 1
+			}
+			for i := d % step; i < len(cat); i += step {
+				runPDF(c, kase{Format: "pdf", Doc: d, Seed: seed, Faults: []fault{cat[i]}, Layout: lay}, "p")
+			}
+			// sampled double faults
+			r := hx.NewRng(seed ^ 0xabcdef)
+			for i := 0; i < c.N(60, 1500); i++ {
+				runPDF(c, kase{Format: "pdf", Doc: d, Seed: seed, Faults: []fault{hx.Pick(r, cat), hx.Pick(r, cat)}, Layout: lay}, "p")
+			}
 		}
-		for i := d % step; i < len(cat); i += step {
-			runPDF(c, kase{Format: "pdf", Doc: d, Seed: seed, Faults: []fault{cat[i]}, Layout: lay}, "p")
+	})
+	section("filter", func() {
+		for d := 0; d < c.N(2, 12); d++ {
+			filterFaults(c, d, c.Seed*1000+uint64(d))
 		}
-		// sampled double faults
-		r := hx.NewRng(seed ^ 0xabcdef)
-		for i := 0; i < c.N(60, 1500); i++ {
-			runPDF(c, kase{Format: "pdf", Doc: d, Seed: seed, Faults: []fault{hx.Pick(r, cat), hx.Pick(r, cat)}, Layout: lay}, "p")
+	})
+	section("filter-fill", func() {
+		for d := 0; d < c.N(1, 2); d++ {
+			filterFillFaults(c, d, c.Seed*1000+uint64(d))
 		}
-	}
-	for d := 0; d < c.N(2, 12); d++ {
-		filterFaults(c, d, c.Seed*1000+uint64(d))
-	}
-	for d := 0; d < c.N(1, 6); d++ {
-		nestFaults(c, d, c.Seed*1000+uint64(d))
-	}
-	for d := 0; d < c.N(2, 10); d++ {
-		objstmFaults(c, d, c.Seed*1000+uint64(d))
-	}
-	formFanout(c)
-	xlsxFaults(c, c.Seed, c.N(250, 5000))
-	for _, f := range ZipFormats {
-		zipFaults(c, f, c.Seed, c.N(140, 2500))
-	}
-	for _, f := range []string{"DOCX", "ODT", "PPTX"} {
-		richNumberFaults(c, f, c.Seed, c.N(4, 16), c.N(1500, 80000))
-	}
-	htmlFaults(c, c.Seed, c.N(120, 1500))
-	rawParsers(c, c.Seed, c.N(1500, 60000))
-	cmapExtremes(c, c.Seed, c.N(1500, 60000))
+	})
+	section("nest", func() {
+		for d := 0; d < c.N(1, 6); d++ {
+			nestFaults(c, d, c.Seed*1000+uint64(d))
+		}
+	})
+	section("objstm", func() {
+		for d := 0; d < c.N(2, 10); d++ {
+			objstmFaults(c, d, c.Seed*1000+uint64(d))
+		}
+	})
+	section("xref-dict", func() {
+		for d := 0; d < c.N(2, 10); d++ {
+			xrefDictFaults(c, d, c.Seed*1000+uint64(d))
+		}
+	})
+	section("forms", func() { formFanout(c) })
+	section("fonts", func() { fontFaults(c) })
+	section("pdf-graphs", func() { pdfGraphs(c) })
+	section("geometry", func() { geometryFaults(c) })
+	section("xlsx", func() { xlsxFaults(c, c.Seed, c.N(250, 5000)) })
+	section("zip", func() {
+		for _, f := range ZipFormats {
+			zipFaults(c, f, c.Seed, c.N(140, 2500))
+		}
+	})
+	section("rich-number", func() {
+		for _, f := range []string{"DOCX", "ODT", "PPTX"} {
+			richNumberFaults(c, f, c.Seed, c.N(4, 16), c.N(1500, 80000))
+		}
+	})
+	section("rich-ref", func() {
+		for _, f := range []string{"DOCX", "ODT", "PPTX", "EPUB", "XLSX"} {
+			richRefFaults(c, f, c.Seed, c.N(1, 12), c.N(140, 20000))
+		}
+	})
+	section("ref-graphs", func() { refGraphs(c) })
+	section("inject", func() {
+		for _, f := range []string{"ODT", "DOCX", "PPTX", "XLSX", "HTML"} {
+			injectFaults(c, f, c.Seed, c.N(1, 6))
+		}
+	})
+	section("xml-nest", func() {
+		for _, f := range []string{"ODT", "DOCX", "PPTX", "XLSX"} {
+			xmlNestFaults(c, f, c.Seed, c.N(130000, 260000), c.N(1<<30, 1))
+		}
+	})
+	section("shapes", func() { productShapes(c) })
+	section("html", func() { htmlFaults(c, c.Seed, c.N(120, 1500)) })
+	section("raw", func() { rawParsers(c, c.Seed, c.N(1500, 60000)) })
+	section("cmap", func() { cmapExtremes(c, c.Seed, c.N(1500, 60000)) })
 }
 
 func Replay(c *hx.Ctx, m map[string]interface{}) {
@@ -830,6 +1073,26 @@ func Replay(c *hx.Ctx, m map[string]interface{}) {
 	hx.Remarshal(m, &k)
 	if k.Format == "pdf" {
 		runPDF(c, k, "replay")
+	}
+	if (k.Format == "docx-styles" || k.Format == "odt-styles") && len(k.Faults) == 1 {
+		runGraph(c, graphCase{Format: k.Format, Shape: strings.TrimPrefix(k.Faults[0].Kind, "graph-"), N: k.Faults[0].Site})
+	}
+	if k.Format == "pdf-graphs" && len(k.Faults) == 1 {
+		runPGraph(c, pgraphCase{Format: k.Format, Shape: strings.TrimPrefix(k.Faults[0].Kind, "graph-"), N: k.Faults[0].Site, K: k.Faults[0].Ordinal})
+	}
+	if k.Format == "pdf-geometry" && len(k.Faults) == 1 {
+		f := k.Faults[0]
+		runGeo(c, geoCase{Format: k.Format, Shape: strings.TrimPrefix(f.Kind, "geo-"), Obj: f.Ordinal, Site: f.Site, Value: f.Value})
+	}
+	if strings.HasSuffix(k.Format, "-shapes") && len(k.Faults) == 1 {
+		runShape(c, shapeCase{Format: k.Format, Shape: strings.TrimPrefix(k.Faults[0].Kind, "shape-"), N: k.Faults[0].Site, K: k.Faults[0].Ordinal})
+	}
+	if k.Format == "pdf-fonts" {
+		fc := fontCase{Format: "pdf-fonts"}
+		for _, f := range k.Faults {
+			fc.Faults = append(fc.Faults, fontFault{Kind: strings.TrimPrefix(f.Kind, "font-"), Obj: f.Ordinal, Site: f.Site, Value: f.Value})
+		}
+		runFont(c, fc)
 	}
 	if k.Format == "pdf-forms" && len(k.Faults) == 1 {
 		f := k.Faults[0]
